@@ -24,7 +24,8 @@ LEVEL_TEXT = ("The real router is run on generated nets over machines with "
               "adjacent chips modulo the dimensions, exact leaf sets) and the "
               "router's success/failure is compared with the oracle's strong "
               "connectivity verdict.  Randomised exploration aimed at the "
-              "repair path (A* detours, re-parenting).")
+              "repair path (A* detours, re-parenting)."
+              ' A fifth of the cases route with every tie-break draw at the lowest or highest value its primitive can return; constraints may be instances of application-derived classes.')
 LEVEL_NOTE = ("Trusted: the harness's machine model (a hop needs a live "
               "source chip, a link not listed dead in that direction, a live "
               "destination chip) and its reachability computation.")
